@@ -1,7 +1,9 @@
 """Shared by the life-cycle properties C06 / C08 / C09 / C12: traces validated by TraceLifecycle.tla."""
 import json
 
-from vlib import Infra, read_ndjson
+import os
+
+from vlib import Infra, Crash, read_ndjson
 
 LIFE_CFG = """SPECIFICATION Spec
 CONSTANTS
@@ -66,8 +68,22 @@ def run_life(c, args_list, what, need_observable=False):
     def one(k, args):
         trace = c.path("life_%d.ndjson" % k)
         summ = c.path("life_%d.json" % k)
-        c.run_driver(["life", "-trace", trace, "-out", summ] + args, env={"VERIF_SEED": str(c.seed * 1000 + k)}, timeout=3000)
-        s = json.load(open(summ))
+        try:
+            c.run_driver(["life", "-trace", trace, "-out", summ] + args, env={"VERIF_SEED": str(c.seed * 1000 + k)}, timeout=3000)
+            s = json.load(open(summ))
+        except Crash as e:
+            # the process died inside the code under test (a Go fatal error cannot be recovered): that is C17's business; what was
+            # recorded before is still judged (the trace is cut at its last complete line)
+            if c.pid == "C17":
+                raise
+            c.drift.append("the life-cycle driver died inside the code under test (C17's business): %s" % str(e)[:300])
+            data = open(trace, "rb").read() if os.path.exists(trace) else b""
+            data = data[:data.rfind(b"\n") + 1]
+            if data.count(b"\n") < 10:
+                raise Infra("the life-cycle driver died before recording anything: %s" % str(e)[:300])
+            with open(trace, "wb") as f:
+                f.write(data)
+            s = {"cases": data.count(b'"ev":"Reset"'), "probes_per_observation": 0, "samples": []}
         bad, res = c.validate_trace("TraceLifecycle", LIFE_CFG % ("TRUE" if need_observable else "FALSE"), trace,
                                     tag="TraceLifecycle_%d" % k, timeout=3000)
         evs = read_ndjson(trace) if bad else None
